@@ -434,6 +434,14 @@ def m_opt_and(I, args, fn, expr):
     return args[1]
 
 
+@model("std::option::Option::<std::option::Option<T>>::flatten")
+def m_opt_flatten(I, args, fn, expr):
+    o = opt(I, args[0])
+    if o.variant == "None":
+        return none()
+    return opt(I, o.fields["0"])
+
+
 @model("std::option::Option::<T>::or")
 def m_opt_or(I, args, fn, expr):
     o = opt(I, args[0])
@@ -1176,6 +1184,44 @@ def m_iter_filter_map(I, args, fn, expr):
     return RIter(nxt, "filter_map")
 
 
+@model("itertools::Itertools::batching")
+def m_iter_batching(I, args, fn, expr):
+    # batching(f): next() = f(&mut inner); the closure pulls as many items as it wants
+    inner = _as_iter(I, args[0])
+    f = args[1]
+
+    def nxt():
+        o = opt(I, I.call_value(f, [inner]))
+        if o.variant == "None":
+            raise StopIteration
+        return o.fields["0"]
+    return RIter(nxt, "batching")
+
+
+@model("itertools::Itertools::peeking_take_while")
+def m_iter_peeking_take_while(I, args, fn, expr):
+    # takes items while the predicate accepts them; the first rejected item stays in the (peekable) inner iterator
+    inner = strip(args[0])
+    if not isinstance(inner, RIter):
+        raise Abort("peeking_take_while on %r" % (inner,))
+    f = args[1]
+
+    def nxt():
+        if inner.peeked is None:
+            try:
+                inner.peeked = inner.fn_next()
+            except StopIteration:
+                inner.peeked = StopIteration
+        if inner.peeked is StopIteration:
+            raise StopIteration
+        if not truth(I, I.call_value(f, [Ref(Place(Cell(inner.peeked)))])):
+            raise StopIteration
+        v = inner.peeked
+        inner.peeked = None
+        return v
+    return RIter(nxt, "peeking_take_while")
+
+
 @model("std::iter::Iterator::flat_map")
 def m_iter_flat_map(I, args, fn, expr):
     src = _as_iter(I, args[0])
@@ -1832,6 +1878,11 @@ def _range_bounds(rng, n):
     if not (isinstance(lo, int) and isinstance(hi, int)):
         return None
     return lo, hi
+
+
+@model("std::ops::RangeInclusive::<Idx>::new")
+def m_range_inclusive_new(I, args, fn, expr):
+    return Adt("std::ops::RangeInclusive", "RangeInclusive", {"start": args[0], "end": args[1]})
 
 
 @model("std::ops::Index::index")
